@@ -1,6 +1,7 @@
 import HdVerif.Model.Tiling
 import HdVerif.Generated.T4t
 import HdVerif.Generated.T4fv
+import HdVerif.Generated.T4fw
 /-! C04: segment-aware reads of a tiled image — the temporary channel table that is joined with the frame table
 (`_prepare_channel_tables`, `_generate_temp_tables`), the channel axis of the output, and HISTORIES of reads on one object.
 
